@@ -112,7 +112,7 @@ Definition fragb (rows : list crow) : bool :=
   forallb row_okb rows && match rows with cr :: _ => match r_type (cr_row cr) with TNode _ _ _ => true | _ => false end | [] => false end.
 
 (* ---------------------------------------------------------------- the simulation relation *)
-Definition cluster := (nat * option nat)%type.          (* the row's node, the implicit router *)
+Notation cluster := (nat * option nat)%type (only parsing).          (* the row's node, the implicit router *)
 
 Definition dest_sim (phi : list cluster) (uu : list id) (d : dest) (d' : dst) : Prop :=
   match d, d' with
@@ -203,11 +203,16 @@ Inductive group_sim (phi : list cluster) (cn : list cnode) : group -> cgroup -> 
     nth_error phi k = Some (k1, None) -> group_sim phi cn (GNoOp ps (Some k)) (CGNoOp ps (Some k1))
 | GS_block ms : group_sim phi cn (GBlock ms) (CGBlock ms).
 
+(* the reference node a row group stands for (each reference node is the node of at most one group) *)
+Definition grow_node (g : group) : list nat :=
+  match g with GRow k _ => [k] | GNoOp _ (Some k) => [k] | _ => [] end.
+
 Record Sim (phi : list cluster) (sr : st) (sc : cstate) : Prop := {
   sim_len : length phi = length (s_nodes sr);
   sim_nodes : forall k n c, nth_error (s_nodes sr) k = Some n -> nth_error phi k = Some c ->
               exists nd o, cluster_nodes (cs_nodes sc) c = Some (nd, o) /\ node_sim phi (map cn_uuid (cs_nodes sc)) n nd o;
   sim_disj : NoDup (flat_map cluster_idx phi);
   sim_groups : Forall2 (group_sim phi (cs_nodes sc)) (s_groups sr) (cs_groups sc);
+  sim_ginj : NoDup (flat_map grow_node (s_groups sr));
   sim_rowmap : s_rowmap sr = cs_rowmap sc;
   sim_stack : s_stack sr = cs_stack sc }.
